@@ -605,8 +605,63 @@ Proof.
   apply (never_shorter_inv l (new p) 0 None Hok I Em Eq).
 Qed.
 
+(* ------------------------------------------------------------------ policy selection *)
+Lemma fold_min_le : forall r s, fold_left N.min r s <= s /\ forall x, In x r -> fold_left N.min r s <= x.
+Proof.
+  induction r as [|y r IH]; intros s; cbn [fold_left].
+  - split; [lia|intros x []].
+  - destruct (IH (N.min s y)) as [H1 H2]. split; [lia|].
+    intros x [<-|Hx]; [lia|apply H2; exact Hx].
+Qed.
+
+Lemma fold_min_in : forall r s, In (fold_left N.min r s) (s :: r).
+Proof.
+  induction r as [|y r IH]; intros s; cbn [fold_left]; [left; reflexivity|].
+  destruct (IH (N.min s y)) as [H|H]; [|right; right; exact H].
+  rewrite <- H. destruct (N.min_spec s y) as [[_ E]|[_ E]]; rewrite E; [left|right; left]; reflexivity.
+Qed.
+
+Lemma min_step_spec : forall s r, In (min_step (s :: r)) (s :: r) /\
+  forall x, In x (s :: r) -> min_step (s :: r) <= x.
+Proof.
+  intros s r. cbn [min_step]. split; [apply fold_min_in|].
+  destruct (fold_min_le r s) as [H1 H2]. intros x [<-|Hx]; [exact H1|apply H2; exact Hx].
+Qed.
+
+Lemma policy_spec_ok : forall c, policy_spec c (softlock_policy c) = true.
+Proof.
+  intros [| |steps keys b|n]; try reflexivity. cbn [softlock_policy policy_spec].
+  destruct steps as [|s r]; cbn [negb].
+  - destruct (keys =? 0); reflexivity.
+  - destruct (min_step_spec s r) as [Hin Hle]. apply andb_true_iff. split.
+    + apply existsb_exists. exists (min_step (s :: r)). split; [exact Hin|apply N.eqb_refl].
+    + apply forallb_forall. intros x Hx. apply N.leb_le. apply Hle. exact Hx.
+Qed.
+
+Lemma policy_eqb_eq : forall a b, policy_eqb a b = true -> a = b.
+Proof.
+  intros [|x| |] [|y| |] H; cbn [policy_eqb] in H; try discriminate; try reflexivity.
+  apply N.eqb_eq in H. subst. reflexivity.
+Qed.
+
+Definition required_policy (c : cshape) : policy :=
+  match c with
+  | SMfa (s :: r) _ _ => PTotp (fold_left N.min r s)
+  | SMfa [] 0 _ | SPassword | SGenerated => PPassword
+  | _ => PWebauthn
+  end.
+
+Lemma required_policy_eq : forall c, required_policy c = softlock_policy c.
+Proof.
+  intros [| |steps keys b|n]; try reflexivity. cbn [required_policy softlock_policy].
+  destruct steps as [|s r]; cbn [negb]; [|reflexivity].
+  destruct keys; reflexivity.
+Qed.
+
 Definition case_ok (c : case) : bool :=
   match c with
+  | CPolicy _ _ => true
+  | CShapeEvents _ c _ _ => policy_ok (softlock_policy c)
   | CNext p _ _ _ => policy_ok p
   | CRaw p _ _ _ _ => policy_ok p
   | CEvents _ p _ _ => policy_ok p
@@ -615,7 +670,13 @@ Definition case_ok (c : case) : bool :=
 Lemma agree_property : forall c, case_ok c = true -> agree c = true ->
   pcheck c = true.
 Proof.
-  intros [p count ct impl|p s0 le0 ops impl|src p evs impl] Hok Ha; cbn [case_ok agree pcheck] in *.
+  intros [c impl|src c evs impl|p count ct impl|p s0 le0 ops impl|src p evs impl] Hok Ha; cbn [case_ok agree pcheck] in *.
+  - apply policy_eqb_eq in Ha. subst impl. apply policy_spec_ok.
+  - apply (list_eqb_eq _ _ obs_eqb_eq) in Ha. subst impl.
+    change (locked_ok evs (exec (new (softlock_policy c)) evs) &&
+            rest_ok (required_policy c) evs (exec (new (softlock_policy c)) evs) = true).
+    rewrite required_policy_eq.
+    rewrite (rest_ok_new _ evs Hok), (locked_full evs (new (softlock_policy c)) Hok). reflexivity.
   - apply lstate_eqb_eq in Ha. subst impl. apply next_spec_ok. exact Hok.
   - apply (list_eqb_eq _ _ sobs_eqb_eq) in Ha. subst impl.
     apply (raw_ok_run ops (mk s0 p le0)).
